@@ -180,9 +180,37 @@ def r3_paused_state(ctx, cfg='A'):
     ctx.floor('non-dispatching paths of dispatch_event', n, 2)
 
 
+def r4_stop_decision(ctx, cfg='A'):
+    """whether dispatch_event stops or dispatches depends on limit.applies(..) alone (besides the empty test)"""
+    ctx.set_rule('C10.R4', cfg)
+    P = ctx.progs[cfg]
+    f = P.fns.get(RT + '::dispatch_event')
+    if not f:
+        return
+    n = 0
+    for path, outcome, decs in fn_paths(ctx, f):
+        if outcome != 'return':
+            continue
+        effs = path_effects(f, path)
+        if not any(e[0] == 'c' and e[1].name == _fes(cfg) + '::fetch_next' for e in effs):
+            continue
+        n += 1
+        atoms = [a for _, a in path_atoms(f, path, decs)]
+        handled = any(e[0] == 'c' and e[1].callee == 'des::runtime::event::types::Event::handle' for e in effs)
+        lim = [a for a in atoms if a[0] == 'bool' and a[1][0] == 'call' and a[1][1] == LIM + '::applies']
+        empt = [a for a in atoms if a[0] == 'bool' and a[1][0] == 'call' and a[1][1].endswith('::is_empty')]
+        other = [a for a in atoms if a not in lim and a not in empt]
+        ok = len(lim) == 1 and lim[0][2] is (not handled) and not other
+        ctx.check(ok, 'stop-iff-limit',
+                  'after fetching, dispatch_event stops iff the installed limit applies to that event, and dispatches it otherwise — no other condition (a step of n events must stop inside a group of equal timestamps too)',
+                  f.where_path(path), {'dispatches': handled, 'conditions': [show_atom(a) for a in atoms]})
+    ctx.floor('post-fetch paths of dispatch_event', n, 2)
+
+
 def run(ctx):
     for cfg in [c for c in ('A', 'B') if c in ctx.progs]:
         r1_step_wrappers(ctx, cfg)
         r2_limit_path(ctx, cfg)
         r3_paused_state(ctx, cfg)
+        r4_stop_decision(ctx, cfg)
     ctx.cfg = 'A'
